@@ -20,7 +20,7 @@ type Item struct {
 	Pattern  string // operator family: the pattern under test
 }
 
-var atomsFull = []string{`a`, `b`, `ab`, `é`, `[ab]`, `[^a]`, `[a-bé]`, `.`, `(?s:.)`, `^`, `$`, `\b`, `\B`, `(?i:a)`}
+var atomsFull = []string{`a`, `b`, `ab`, `é`, `[ab]`, `[^a]`, `[a-bé]`, `.`, `(?s:.)`, `^`, `$`, `\b`, `\B`, `(?i:a)`, `(?m:$)`, `(?m:^)`, `\z`}
 var atomsSmall = []string{`a`, `b`, `é`, `.`, `\b`, `[^a]`}
 
 func unary(x string) []string {
